@@ -86,13 +86,19 @@ def case(draw, tier="quick"):
         spec["pair_coeffs"] = [normalise(c, "pair") for c in spec["pair_coeffs"]]
         for k in M.KINDS:
             spec[k + "_coeffs"] = [normalise(c, k) for c in spec[k + "_coeffs"]]
-    return {"spec": spec, "style": draw(st.sampled_from(["full", "full", "atomic"])), "normalised": norm, "wide": wide}
+    return {"spec": spec, "style": draw(st.sampled_from(["full", "full", "atomic"])), "normalised": norm, "wide": wide,
+            "call": draw(st.sampled_from(["keyword", "keyword", "positional", "save"]))}
 
 
-def save_text(a, style):
+def save_text(a, style, form="keyword"):
     buf = io.StringIO()
     with silenced():
-        a.save_lmpdat(buf, atom_format=style)
+        if form == "positional":
+            a.save_lmpdat(buf, style)              # documented order: (f, atom_format, file_comment)
+        elif form == "save":
+            a.save(buf, filetype="lmpdat", atom_format=style)
+        else:
+            a.save_lmpdat(buf, atom_format=style)
     return buf.getvalue()
 
 
@@ -210,15 +216,21 @@ def check_reload(spec, b, style, what):
 def oracle(c, stats):
     from mofun import Atoms
     spec, style = c["spec"], c["style"]
+    form = c.get("call", "keyword")
     a = M.build(spec)
     try:
-        t1 = save_text(a, style)
+        t1 = save_text(a, style, form)
     except Exception as e:
-        raise Violation("exception-in-save", "%s: %r" % (type(e).__name__, e))
+        raise Violation("exception-in-save", "%s: %r (call form: %s)" % (type(e).__name__, e, form))
     check_file(spec, t1, style)
     try:
         with silenced():
-            b = Atoms.load_lmpdat(io.StringIO(t1), atom_format=style)
+            if form == "positional":
+                b = Atoms.load_lmpdat(io.StringIO(t1), style)          # documented order: (f, atom_format, guess_atol)
+            elif form == "save":
+                b = Atoms.load(io.StringIO(t1), filetype="lmpdat", atom_format=style)
+            else:
+                b = Atoms.load_lmpdat(io.StringIO(t1), atom_format=style)
     except Exception as e:
         raise Violation("exception-in-load", "%s: %r" % (type(e).__name__, e))
     check_reload(spec, b, style, "load(save(x))")
@@ -280,6 +292,7 @@ def oracle(c, stats):
     stats.count("style:" + style)
     stats.count("cell:%s" % ("none" if cell is None else "tilted" if tilted else "ortho"))
     stats.count("normalised:%s" % c["normalised"])
+    stats.count("call:" + form)
     if c.get("wide"):
         stats.count("coordinates-wider-than-the-column")
     stats.count("atoms:%s" % ("1-30" if len(spec["pos"]) <= 30 else "31-127" if len(spec["pos"]) <= 127 else "128-255" if len(spec["pos"]) <= 255 else "256+"))
